@@ -51,10 +51,12 @@ def judge(c, K, M, ev, vecs, label, sort, k_req, sparse):
         return None
     wK = np.linalg.eigvalsh(Kd[np.ix_(actK, actK)])
     wM = np.linalg.eigvalsh(Md[np.ix_(act, act)])
-    if wK.min() <= 1e-12 * wK.max() or wM.min() <= 1e-13 * wM.max():
-        c.reject('outside the domain: K or M not positive definite on the active amplitudes')
+    # K must be positive definite on its active set; for M positive SEMI-definiteness is enough (both solution paths and the
+    # reference factorise K, never M): mass matrices of 12+ terms are numerically singular although every column carries mass
+    if wK.min() <= 1e-12 * wK.max() or wM.min() < -1e-10 * wM.max():
+        c.reject('outside the domain: K not positive definite or M indefinite on the active amplitudes')
         return None
-    cond = max(wK.max() / wK.min(), wM.max() / wM.min())
+    cond = max(wK.max() / wK.min(), min(wM.max() / max(wM.min(), 1e-300), 1e4))
     c.info['cond'] = float(cond)
     ref, _ = eig.ref_freq(Kd, Md)
     null = np.setdiff1d(np.arange(n), act)
@@ -70,7 +72,7 @@ def judge(c, K, M, ev, vecs, label, sort, k_req, sparse):
         if w.real > 0 and vr_.any():
             kap = (nK_ + w.real ** 2 * nM_) * float(vr_ @ vr_) / (w.real ** 2 * float(vr_ @ Md @ vr_) + 1e-300)
             fwd[i] = (2 * resid(Kd, Md, w.real, vr_) + 100 * n * EPS) * kap / 2
-        c.judge(label + ' frequency real', abs(w.imag), 1e-7 * abs(w) + 1e-300)
+        c.judge(label + ' frequency real', abs(w.imag), (1e-7 + fwd[i]) * abs(w) + 1e-300)      # fwd: backward error x condition number of this pair
         c.expect(label + ' frequency positive', w.real > 0, 'omega[%d]=%r' % (i, w))
         v = np.asarray(vecs[:, i])
         c.judge(label + ' residual K v = w^2 M v', resid(Kd, Md, w.real, v), res_tol, data={'i': i, 'w': w.real})
@@ -218,7 +220,18 @@ def run_case(rng, tier, idx):
     # package matrices
     fl = gen.flags(rng, style=str(rng.choice(['ss', 'clamped', 'binary', 'mixed'])))
     d = gen.panel_desc(rng, model=str(rng.choice(['plate', 'cpanel', 'plate_w', 'kpanel'])), mmax=7, sub=False, place=False, fl=fl)
-    d['m'] = max(d['m'], 4); d['n'] = max(d['n'], 4)
+    d['m'] = max(d['m'], 6); d['n'] = max(d['n'], 6)      # enough free terms behind clamped edges
+    if mode == 'panel_method' and rng.random() < 0.5:
+        # many terms and a cantilever-like restraint pattern: mass columns then span many orders of magnitude
+        d['m'] = int(rng.integers(10, 15)); d['n'] = int(rng.integers(10, 15))
+        sparse = False         # the dense branch is the one that sees the whole spectrum and all mass columns
+        if rng.random() < 0.6:
+            # cantilever: edge x = 0 clamped, the three other edges free
+            fl = gen.flags(rng, 'free')
+            for f in 'uvw':
+                fl[f + '1tx'] = 0.0; fl[f + '1rx'] = 0.0
+            fl['_style'] = 'cantilever'
+            d['flags'] = fl
     p = gen.build_panel(d)
     k = int(rng.integers(1, 8))
     desc = dict(src=mode, panel=d, k=k, sparse_solver=sparse, sort=sort)
